@@ -87,29 +87,13 @@ def run(chk: Check):
                expected=str(want), found=str(tab))
     # ------------------------------------------------------------------------------------------------ VMX.disks
     dctx = chk.func(VMX, "VMX.disks")
-    # the device classes: the collection whose elements the setting name is tested against with startswith()
-    classes = None
-    CLASSVAR = None
-    for n in sorted((x for x in ast.walk(dctx.func) if isinstance(x, ast.Call) and isinstance(x.func, ast.Attribute) and x.func.attr == "startswith" and x.args),
-                    key=lambda x: x.lineno):
-        t = R.expr(dctx, n.args[0], dctx.cfg.node_for(n))
-        if t[0] == "iter":
-            v = _const_seq(t[1])
-            if v is not None and all(isinstance(x, str) for x in v) and len(v) >= 2:
-                classes = (n, tuple(v))
-                CLASSVAR = t
-                break
-    chk.decide(classes is not None and set(classes[1]) == {"scsi", "sata", "ide", "nvme"}, "K-CONST", "vmx:device-classes", classes[0] if classes else dctx.func,
-               "disk-capable device classes are exactly scsi, sata, ide, nvme", found=str(classes[1] if classes else None))
+    classes = vmx_grouping(chk, dctx)
     # lower-case literals at look-up
     bad = []
     for n in _own_nodes(dctx.func):
         if isinstance(n, ast.Call) and isinstance(n.func, ast.Attribute) and n.func.attr == "get" and n.args and isinstance(n.args[0], ast.Constant) and isinstance(n.args[0].value, str):
             if n.args[0].value != n.args[0].value.lower():
                 bad.append(n)
-    for cls_ in (classes[1] if classes else ()):
-        if cls_ != cls_.lower():
-            bad.append(classes[0])
     ectx = chk.func(VMX, "VMX.encrypted")
     for n in ast.walk(ectx.func):
         if isinstance(n, ast.Compare) and len(n.ops) == 1 and isinstance(n.ops[0], (ast.In, ast.NotIn)) and isinstance(n.left, ast.Constant) \
@@ -147,34 +131,6 @@ def run(chk: Check):
                    found=str({k: v_ for k, v_ in tab.items() if bool(v_) != (bool(k[0]) and (not k[1] or 'disk' in (k[1] or '').lower()))}) if tab else S.show(v)[:120])
     rets = [o for o in func_outcomes(chk, dctx) if o[0] == "return"]
     chk.decide(bool(rets) and rets[0][3][0] == "call" and rets[0][3][1] == "sorted", "K-PROV", "vmx:disks-sorted", dctx.func, "the list is returned sorted")
-    # grouping: split at the first '.', the device id is what follows the class name
-    sp = [n for n in _own_nodes(dctx.func) if isinstance(n, ast.Call) and isinstance(n.func, ast.Attribute) and n.func.attr == "split"]
-    oks = bool(sp) and len(sp[0].args) == 2 and isinstance(sp[0].args[0], ast.Constant) and sp[0].args[0].value == "." and isinstance(sp[0].args[1], ast.Constant) and sp[0].args[1].value == 1
-    chk.decide(oks, "K-GRAMMAR", "vmx:device-property-split", sp[0] if sp else dctx.func, "device and property are separated at the first '.'")
-    # devices are distinguished by (device class, bus:unit): scsi0:0 and sata0:0 are two devices
-    pst = [n for n in _own_nodes(dctx.func) if isinstance(n, ast.Assign) and isinstance(n.targets[0], ast.Subscript)]
-    okkey = False
-    found_base = None
-    for n in pst:
-        base = R.expr(dctx, n.targets[0].value, dctx.cfg.node_of[n])
-        found_base = base
-        # .setdefault(.setdefault(devices, <class>, {}), <device id>, {})
-        if base[0] == "call" and base[1] == ".setdefault" and len(base[2]) >= 2:
-            inner, dev_id = base[2][0], base[2][1]
-            if inner[0] == "call" and inner[1] == ".setdefault" and len(inner[2]) >= 2:
-                cls_key = inner[2][1]
-                # the class variable: the loop variable over the classes, or next(<class for class in classes if startswith>, None)
-                is_class = CLASSVAR is not None and (cls_key == CLASSVAR or (
-                    cls_key[0] == "call" and cls_key[1] == "next" and cls_key[2] and cls_key[2][0][0] == "comp" and cls_key[2][0][2] == CLASSVAR))
-                okkey = is_class and S.contains(dev_id, lambda x: x == cls_key) and dev_id != cls_key
-        elif base[0] == "sub" and base[1][0] == "sub":
-            okkey = True  # devices[class][id][property]
-    chk.decide(okkey, "K-PROV", "vmx:devices-keyed-by-class-and-id", pst[0] if pst else dctx.func,
-               "device properties are collected per (device class, bus:unit) pair" if okkey else
-               "device properties are not keyed by the device class as well: devices of different classes at the same bus:unit address are merged "
-               "(a CD-ROM's device type can hide a hard disk, one file name overwrites the other)", found=S.show(found_base)[:200] if found_base else "no store")
-    sw = [n for n in _own_nodes(dctx.func) if isinstance(n, ast.Call) and isinstance(n.func, ast.Attribute) and n.func.attr == "startswith"]
-    chk.decide(bool(sw), "K-GRAMMAR", "vmx:class-prefix-test", sw[0] if sw else dctx.func, "settings are attributed to a device class by prefix")
 
     # ------------------------------------------------------------------------------------------------ OVF
     oci = chk.prog.cls(OVF, "OVF")
@@ -299,6 +255,127 @@ def _const_seq(t):
     if isinstance(t, tuple) and t and t[0] in ("tuple", "list") and all(S.is_const(x) for x in t[1]):
         return [x[1] for x in t[1]]
     return None
+
+
+def _key_path(base):
+    """The keys a store's container expression walks through: setdefault(setdefault(D, k1, {}), k2, {}) / D[k1][k2] -> [k1, k2]."""
+    path = []
+    t = base
+    while True:
+        if t[0] == "call" and t[1] == ".setdefault" and len(t[2]) >= 2:
+            path.append(t[2][1])
+            t = t[2][0]
+        elif t[0] == "sub" and t[2][0] != "slice":
+            path.append(t[2])
+            t = t[1]
+        else:
+            break
+    return list(reversed(path)), t
+
+
+def vmx_grouping(chk: Check, dctx):
+    """VMX.disks, grouping of settings into devices, decided by evaluating the store's path conditions and keys on model setting
+    names (string methods are interpreted): a setting `<class><bus>[:<unit>].<property>` with class in scsi / sata / ide / nvme is
+    stored - once - under keys that tell devices apart exactly by (class, bus:unit), with the property = the text behind the first
+    '.'; any other setting is not stored."""
+    import itertools
+    R = chk.R
+    pst = [n for n in _own_nodes(dctx.func) if isinstance(n, ast.Assign) and isinstance(n.targets[0], ast.Subscript)]
+    sites = []
+    for n in pst:
+        node = dctx.cfg.node_of[n]
+        base = R.expr(dctx, n.targets[0].value, node)
+        prop = R.expr(dctx, n.targets[0].slice, node)
+        for extra, alt in split_alternatives(base):
+            path, root = _key_path(alt)
+            sites.append((n, path + [prop], conds_sym(chk, dctx, n) + [(c, p) for c, p in extra]))
+    rule_c = ("K-CONST", "vmx:device-classes")
+    if not sites:
+        chk.violated("K-PROV", "vmx:devices-keyed-by-class-and-id", dctx.func, "no device property is stored")
+        return None
+    # the setting name: what the class prefix is tested on
+    recv = {}
+    for _n, keys, conds in sites:
+        for t in [c for c, _ in conds] + keys:
+            for x in S.walk(t):
+                if isinstance(x, tuple) and x and x[0] == "call" and x[1] in (".startswith", ".split", ".partition", ".removeprefix", ".lstrip") and x[2]:
+                    r = x[2][0]
+                    while r[0] == "call" and r[1] in (".lower", ".strip") and r[2]:
+                        r = r[2][0]
+                    if r[0] in ("sub", "iter"):
+                        recv[r] = recv.get(r, 0) + 1
+    if not recv:
+        chk.undecided(*rule_c, pst[0], "cannot find the setting name the device class is decided on")
+        return None
+    SETTING = max(recv, key=lambda r: (recv[r], -len(repr(r))))
+    # loop variables over constant sequences (a class list that was not unrolled): every combination is a possible binding
+    iters = {}
+    for _n, keys, conds in sites:
+        for t in [c for c, _ in conds] + keys:
+            for x in S.walk(t):
+                if isinstance(x, tuple) and x and x[0] == "iter" and x != SETTING and not S.contains(SETTING, lambda y: y == x):
+                    v = _const_seq(x[1])
+                    if v is not None and 0 < len(v) <= 12:
+                        iters[x] = list(v)
+    CLASSES = ("scsi", "sata", "ide", "nvme")
+    devs = {}
+    for c in CLASSES:
+        for ident in ("0:0", "0:1", "1:0", "0", "10:12"):
+            for prop in ("filename", "devicetype", "present", "filename.backup"):
+                devs[f"{c}{ident}.{prop}"] = (c, ident, prop)
+    others = ["ethernet0.present", "floppy0.filename", "displayname", "usb.present", "sound.filename", "serial0.filename", "xscsi0:0.filename",
+              "myide0:0.filename", "config.version", "pciBridge0.present", "sched.scsi0:0.shares", "numvcpus"]
+    opaque = False
+    got = {}
+    for name in list(devs) + others:
+        hits = []
+        for combo in itertools.product(*iters.values()) if iters else [()]:
+            ov = {SETTING: name}
+            ov.update(dict(zip(iters.keys(), combo)))
+            for n, keys, conds in sites:
+                val = S.Valuation(1, override=ov)
+                try:
+                    if eval_conds(conds, val):
+                        hits.append(tuple(S._key(S.ev(k, val)) for k in keys))
+                except S.EvalError:
+                    opaque = True
+        got[name] = hits
+        for _n, keys, conds in sites:
+            if any(S.opaque_parts(t) for t in keys + [c for c, _ in conds]):
+                opaque = True
+
+    def verdict(ok, kind, inst, where, text, bad):
+        if ok:
+            chk.decide(True, kind, inst, where, text)
+        elif opaque:
+            chk.undecided(kind, inst, where, "the store's keys or conditions contain a call the analyser does not interpret: " + bad)
+        else:
+            chk.violated(kind, inst, where, bad)
+
+    # (a) which settings are device settings
+    bad = [f"`{n}` is not stored as a device property" for n in devs if len(got[n]) == 0][:2] + \
+          [f"`{n}` is stored as a device property" for n in others if got[n]][:2] + \
+          [f"`{n}` is stored {len(got[n])} times" for n in devs if len(got[n]) > 1][:1]
+    verdict(not bad, *rule_c, pst[0], "settings of the disk-capable device classes scsi, sata, ide, nvme - and only those, by prefix - are collected "
+            f"({len(devs)} device settings and {len(others)} other settings evaluated)", "; ".join(bad))
+    chk.decide(True, "K-GRAMMAR", "vmx:class-prefix-test", pst[0], "settings are attributed to a device class by prefix (evaluated with vmx:device-classes)", nontrivial=False)
+    if bad:
+        return None
+    # (b) devices are told apart exactly by (class, bus:unit)
+    part_got, part_want = {}, {}
+    for n, (c, ident, prop) in devs.items():
+        part_got.setdefault(got[n][0][:-1], set()).add(n)
+        part_want.setdefault((c, ident), set()).add(n)
+    okp = sorted(map(sorted, part_got.values())) == sorted(map(sorted, part_want.values()))
+    merged = next((sorted(v)[:3] for v in part_got.values() if len({devs[n][:2] for n in v}) > 1), None)
+    verdict(okp, "K-PROV", "vmx:devices-keyed-by-class-and-id", pst[0], "device properties are collected per (device class, bus:unit) pair",
+            "device properties are not keyed by the device class as well: devices of different classes at the same bus:unit address are merged "
+            f"(a CD-ROM's device type can hide a hard disk, one file name overwrites the other), e.g. {merged}" if merged else
+            "settings of one device are spread over several entries")
+    # (c) the property name
+    badp = [f"`{n}` is stored as property {got[n][0][-1]!r}, specified {devs[n][2]!r}" for n in devs if got[n][0][-1] != devs[n][2]]
+    verdict(not badp, "K-GRAMMAR", "vmx:device-property-split", pst[0], "device and property are separated at the first '.'", "; ".join(badp[:2]))
+    return (pst[0], CLASSES)
 
 
 def _collected(chk: Check, ctx):
